@@ -25,10 +25,10 @@ ASSUMPTIONS = [
 ]
 REQUIRED_CLASSES = ["k-divides-size", "no-final-newline", "gzip", "crlf", "lazy", "eager", "k-lt-size", "via-path"]
 BOUNDS = {
-    "quick": "core: widths {1,2}, up to 3 records, all 10 formats, all k in 1..size+2, all 16 flag combinations; 40 sampled files per format",
+    "quick": "core: widths {1,2}, up to 3 records, all 10 formats, all k in 1..size+2, all 16 flag combinations (every 4th case from each of 4 offsets = complete), plus a 1-in-8 stride sample of the same core with widths {1,5}; 40 sampled files per format",
     "thorough": "core: widths {1,2,5}, up to 4 records, all 10 formats, all k, all 16 flag combinations; 500 sampled files per format",
 }
-BUDGET_S = {"quick": 200, "thorough": 1500}
+BUDGET_S = {"quick": 300, "thorough": 1500}
 
 FMTS = ["fasta2", "fastaml", "fastq", "bed3", "bed6", "bdg", "narrowpeak", "vcf", "sam", "gtf"]
 
@@ -237,6 +237,9 @@ def tasks(tier, seed):
         for fmt in FMTS:
             for off in range(4):
                 out.append(("task_core", dict(fmt=fmt, widths=[1, 2], max_records=3, stride=4, offset=off)))
+            # very unequal field widths in one column (a one-character field at the start of a chunk, a five-character one later in it)
+            for off in range(2):
+                out.append(("task_core", dict(fmt=fmt, widths=[1, 5], max_records=3, stride=16, offset=off * 8 + 1)))
         for i, fmt in enumerate(FMTS):
             out.append(("task_sampled", dict(fmt=fmt, n=40, seed=seed * 1000 + i, max_records=20, W=20)))
     else:
